@@ -45,6 +45,18 @@ CHECKS = {
         technique='symbolic execution of the real Python code (CrossHair/z3), per-condition solver verdict',
         engine='E1',
     ),
+    'C15': dict(
+        category='other',
+        text=('Bounded symbolic execution (CrossHair + z3) of the real date helpers (_date, _datedif, _edate, _eomonth, _network_days, '
+              '_year/_month/_day) of the regenerated runtime class and of classes emitted by the real Parser; the year (pair) is concrete '
+              'per condition, months/days/offsets/interval lengths/holiday offsets symbolic; oracle = independent proleptic-Gregorian '
+              'ordinal arithmetic. TODAY is decided concretely with a stubbed clock (C-level datetime.combine cannot run inside the engine).'),
+        design_ref='DESIGN.md section 6 / C15',
+        note=('each verdict reads "for that concrete year, all months/days/offsets in the box"; years outside the listed set, DATEDIF MD/YD, '
+              'time-of-day components are outside the claim; TODAY clause: concrete grid with a clock stub, not a solver verdict.'),
+        technique='symbolic execution of the real Python code (CrossHair/z3), per-condition solver verdict',
+        engine='E1',
+    ),
 }
 
 NOT_YET = {}   # filled below for every property without a check
